@@ -171,6 +171,31 @@ for m in BENIGN:
         results.append(dict(id=m['id'], prop=prop, what=m['what'], status='silent' if ok else 'ALARM', suite=suite))
     open(path, 'w').write(orig)
 
+# the known-findings path: a listed finding is reported as KNOWN-FINDING (exit 0), a different
+# violation of the same property is still a VIOLATION
+if not only or 'known-findings-path' in only:
+    known = os.path.join(scratch, 'known.txt')
+    open(known, 'w').write('known: property=C20 signature=cli-removed-more:marker[vec![]] default target leaks (self-test entry)\n'
+                           'known: property=C20 signature=cli-lists-ready-more:marker[vec![]] default target leaks, list modes (self-test entry)\n'
+                           'known: property=C20 signature=cli-lists-ready-more:items default target leaks, list modes, tag not shown (self-test entry)\n')
+    path = os.path.join(repo, MAIN)
+    orig = open(path).read()
+    f1_old = '    #[arg(long)]\n    removal_marker_target_name: Vec<String>,'
+    f1_new = '    #[arg(long, default_value = "vec![]")]\n    removal_marker_target_name: Vec<String>,'
+    open(path, 'w').write(orig.replace(f1_old, f1_new))
+    r = sh(f"VERIF_KNOWN_FILE={known} VERIF_REPO={repo} {verif}/check C20 quick")
+    ok1 = r.returncode == 0 and 'KNOWN-FINDING: property=C20' in r.stdout and 'VIOLATION' not in r.stdout
+    print(f"{'known-findings-path/listed':34s} C20 {'KNOWN-FINDING, exit 0' if ok1 else 'UNEXPECTED'} exit={r.returncode}")
+    open(path, 'w').write(orig.replace(f1_old, f1_new).replace('print!("{}", output);', 'println!("{}", output);'))
+    r = sh(f"VERIF_KNOWN_FILE={known} VERIF_REPO={repo} {verif}/check C20 quick")
+    ok2 = r.returncode == 1 and 'VIOLATION property=C20' in r.stdout and 'KNOWN-FINDING: property=C20' in r.stdout
+    print(f"{'known-findings-path/other':34s} C20 {'KNOWN-FINDING + VIOLATION, exit 1' if ok2 else 'UNEXPECTED'} exit={r.returncode}")
+    if not (ok1 and ok2):
+        failed += 1
+        print('    ' + '\n    '.join((r.stdout + r.stderr).splitlines()[-10:]))
+    results.append(dict(id='known-findings-path', prop='C20', status='ok' if (ok1 and ok2) else 'UNEXPECTED'))
+    open(path, 'w').write(orig)
+
 # the unbroken scratch copy must be silent
 for prop in ('C05', 'C19', 'C20'):
     if only:
